@@ -76,14 +76,29 @@ def mutations(seed):
                         m = copy.deepcopy(seed); get(m, path[:-1])[key] = t
                         out.append(("retag %s -> %s" % ("/".join(map(str, path)), t), m))
             if len(path) >= 2 and path[-2] == "States" and len(path) > 2:
-                # a nested state renamed to the name of an outer state (non-unique names across nesting levels)
-                for outer in seed.get("States", {}):
-                    if outer != key:
-                        m = copy.deepcopy(seed); p = get(m, path[:-1]); p[outer] = p.pop(key)
+                # a nested state renamed to the name of a state of another machine of the same definition: an outer one, or one
+                # in a sibling Branch / another Map's processor (non-unique names across and beside nesting levels)
+                for other in dict.fromkeys(names):
+                    if other != key and other not in parent:
+                        m = copy.deepcopy(seed); p = get(m, path[:-1]); p[other] = p.pop(key)
+                        if p.get(other, {}).get("Next") == other:
+                            continue
+                        # keep the machine well-formed in every other respect: references inside the same States object follow the rename
+                        holder = get(m, path[:-2])
+                        if holder.get("StartAt") == key:
+                            holder["StartAt"] = other
+                        for st in p.values():
+                            if isinstance(st, dict) and st.get("Next") == key:
+                                st["Next"] = other
                         txt = json.dumps(m)
-                        out.append(("duplicate-name %s -> %s" % ("/".join(map(str, path)), outer), json.loads(txt)))
+                        out.append(("duplicate-name %s -> %s" % ("/".join(map(str, path)), other), json.loads(txt)))
+        cur = parent[key]
+        # the empty / zero / negative value of the member's own type ("" for a name, [] for a list, 0 and -1 for a number)
+        for ev in {str: [""], list: [[]], dict: [{}], int: [0, -1], float: [0.0]}.get(type(cur), []):
+            if ev != cur:
+                m = copy.deepcopy(seed); get(m, path[:-1])[key] = copy.deepcopy(ev)
+                out.append(("empty %s := %s" % ("/".join(map(str, path)), json.dumps(ev)), m))
         for wv in WRONG:
-            cur = parent[key]
             if type(cur) == type(wv) and not (isinstance(cur, bool) != isinstance(wv, bool)):
                 continue
             m = copy.deepcopy(seed); get(m, path[:-1])[key] = copy.deepcopy(wv)
@@ -124,6 +139,54 @@ def validate(d):
 
 ILLEGAL = ("Illegal State Machine",)
 
+def may_loop(d):
+    """Does any machine of the definition have a cycle in its transition graph (a legal endless loop)?"""
+    found = []
+    def targets(x, acc):
+        if isinstance(x, dict):
+            for k, v in x.items():
+                if k in ("Next", "Default") and isinstance(v, str):
+                    acc.append(v)
+                elif k not in ("States", "Branches", "Iterator", "ItemProcessor"):
+                    targets(v, acc)
+        elif isinstance(x, list):
+            for v in x:
+                targets(v, acc)
+        return acc
+    def machines(x):
+        if isinstance(x, dict):
+            if isinstance(x.get("States"), dict):
+                yield x["States"]
+            for v in x.values():
+                yield from machines(v)
+        elif isinstance(x, list):
+            for v in x:
+                yield from machines(v)
+    for states in machines(d):
+        edges = {n: [t for t in targets(st, []) if t in states] for n, st in states.items()}
+        colour = {}
+        def dfs(n):
+            colour[n] = 1
+            for t in edges[n]:
+                if colour.get(t) == 1 or (t not in colour and dfs(t)):
+                    return True
+            colour[n] = 2
+            return False
+        if any(n not in colour and dfs(n) for n in list(edges)):
+            return True
+    return False
+
+def field_of(desc):
+    """The mutated member, without state names and indices: 'Retry/#/MaxAttempts' for 'retype States/T/Retry/0/MaxAttempts := []'."""
+    parts = desc.split(" ")[1].split("/")
+    parts = ["#" if p.isdigit() else p for p in parts]
+    out = []
+    for i, p in enumerate(parts):
+        if i > 0 and parts[i - 1] == "States":
+            continue
+        out.append(p)
+    return "/".join(out[-3:])
+
 def run_machine(d, inputs, outcomes):
     """Run an accepted definition for every (input, task outcome): -> list of (status, error, cause, escaped)"""
     from harness.world import World, exec_arn
@@ -139,12 +202,14 @@ def run_machine(d, inputs, outcomes):
                 res.append(("harness", type(e).__name__, str(e)[:100], []))
                 continue
             term = [n["body"]["detail"] for n in w.notes if n["body"]["detail"]["status"] != "RUNNING"]
-            if term:
-                res.append((term[-1]["status"], term[-1].get("error"), term[-1].get("cause") or "", [e[2] for e in w.escaped], len(term)))
-            elif w.enabled():
-                res.append(("still-running", None, "", [e[2] for e in w.escaped], 0))     # e.g. a loop: legal, not judged
+            announced = any(n["body"]["detail"]["status"] == "RUNNING" for n in w.notes)
+            if w.enabled():
+                # a machine whose transition graph has a cycle may legally run for ever: not judged; without one it must end
+                res.append(("still-running" if may_loop(d) else "livelock", None, "", [e[2] for e in w.escaped], len(term), announced))
+            elif term:
+                res.append((term[-1]["status"], term[-1].get("error"), term[-1].get("cause") or "", [e[2] for e in w.escaped], len(term), announced))
             else:
-                res.append((None, None, "", [e[2] for e in w.escaped], 0))
+                res.append((None, None, "", [e[2] for e in w.escaped], 0, announced))
             w.close()
     return res
 
@@ -161,6 +226,10 @@ def _mut_job(args):
         runs = None
         if v == ("problems", 0):
             runs = run_machine(m, INPUTS, OUTCOMES)
+        elif v[0] == "problems":
+            # a definition the validator refuses can still reach the engine (validate_asl is optional, raw events carry
+            # definitions): it may fail, but only its own execution, once, and the engine must go quiet afterwards
+            runs = run_machine(m, INPUTS[:1], OUTCOMES)
         out.append((desc, v, runs))
     return out
 
@@ -190,6 +259,8 @@ def _healthy_job(args):
     viols = [v for v in viols if v["monitor"] != "M-life" or (v["kind"] == "never_terminal" and "RUNNING" in v["detail"]) or v["kind"] in ("second_running", "notification_after_terminal")]
     # the healthy executions must both have reached SUCCEEDED on every explored schedule: outcomes record it
     bad_out = [k for k in r.outcomes if k.count("SUCCEEDED") < 2 + (1 if False else 0)]
+    if "depth" in r.caps and not (kind == "definition" and may_loop(payload)):
+        viols.append({"monitor": "M-life", "kind": "livelock", "detail": "a path of more than 400 steps: the engine never goes quiet although nothing it runs has a cycle"})
     return {"states": r.states, "transitions": r.transitions, "violations": viols, "bad_outcomes": bad_out[:2], "paths": r.replays + 1}
 
 def run(tier, seed):
@@ -220,7 +291,7 @@ def run(tier, seed):
         outs = pool.map(_mut_job, jobs, chunksize=1)
         vouts = pool.map(validate, vals, chunksize=20)
         houts = pool.map(_healthy_job, hjobs, chunksize=2)
-    nm = acc = runs = 0
+    nm = acc = runs = rej = 0
     for (sname, lo, hi), res in zip(jobs, outs):
         for desc, v, rr in res:
             nm += 1
@@ -229,6 +300,25 @@ def run(tier, seed):
                 sig = "validator|%s|%s" % (v[0], v[1] if v[0] == "raise" else "")
                 cr.add(sig, "StateLint.validate on %s [%s] -> %r (must return a list of problems)" % (sname, desc, v), {"kind": "mutation", "property": PROP, "signature": sig, "seed": sname, "mutation": desc}, size=len(desc))
                 continue
+            if v[1] > 0:
+                rej += 1
+                for r in rr:
+                    runs += 1
+                    status, escaped, nterm, announced = r[0], r[3], r[4], r[5] if len(r) > 5 else False
+                    bad = None
+                    if status == "harness":
+                        bad = ("engine-raises", "%s %s" % (r[1], r[2]))
+                    elif escaped:
+                        bad = ("exception-escapes", escaped[0][:120])
+                    elif status == "livelock":
+                        bad = ("never-quiet", "still running after 3000 steps although no machine of the definition has a cycle")
+                    elif nterm > 1:
+                        bad = ("ends-twice", "%d terminal notifications" % nterm)
+                    elif status is None and announced:
+                        bad = ("never-terminal", "announced RUNNING, no terminal status at quiescence")
+                    if bad:
+                        sig = "rejected|%s|%s|%s" % (bad[0], op, field_of(desc))
+                        cr.add(sig, "%s [%s] is refused by the validator; run anyway: %s" % (sname, desc, bad[1]), {"kind": "mutation", "property": PROP, "signature": sig, "seed": sname, "mutation": desc}, size=len(desc))
             if v[1] == 0:
                 acc += 1
                 for r in rr:
@@ -241,10 +331,12 @@ def run(tier, seed):
                         bad = ("exception-escapes", escaped[0][:120])
                     elif status is None:
                         bad = ("never-terminal", "no terminal status")
+                    elif status == "livelock":
+                        bad = ("never-terminal", "still running after 3000 steps although no machine of the definition has a cycle")
                     elif any(x in str(cause) for x in ILLEGAL):
                         bad = ("illegal-state-machine-at-run-time", str(cause)[-160:])
                     if bad:
-                        sig = "accepted|%s|%s" % (bad[0], op)
+                        sig = "accepted|%s|%s|%s" % (bad[0], op, field_of(desc))
                         cr.add(sig, "%s [%s] has no validator problems but at run time: %s" % (sname, desc, bad[1]), {"kind": "mutation", "property": PROP, "signature": sig, "seed": sname, "mutation": desc}, size=len(desc))
     for v, r in zip(vals, vouts):
         if r[0] != "problems":
@@ -267,11 +359,12 @@ def run(tier, seed):
         "states": max(hs, 1), "transitions": max(ht, 1), "traces_validated_against_impl": hp + runs,
         "evaluations": nm + len(vals) + len(hjobs), "distinct_nontrivial": acc + len(hjobs),
         "samples": [{"seed": "choice", "mutation": "retarget States/C/Default -> Missing"}, {"event_body": "[1]"}],
-        "mutants": nm, "mutants_accepted_by_validator": acc, "engine_runs_of_accepted_mutants": runs, "json_values_validated": len(vals), "healthy_explorations": len(hjobs),
+        "mutants": nm, "mutants_accepted_by_validator": acc, "mutants_refused_and_run_anyway": rej, "engine_runs_of_accepted_mutants": runs, "json_values_validated": len(vals), "healthy_explorations": len(hjobs),
         "exhaustive": True,
         "explanation": "all single mutations (drop / rename a field, retarget Next / Default / StartAt, retag Type, duplicate a state name across nesting levels, replace a value by each wrong JSON type) of 12 "
                        "well-formed seed machines and a family of small JSON values are given to StateLint.validate (must return a list); every mutant without problems is run by the real engine for 3 inputs x "
-                       "{task succeeds, task fails}; mutants, JSON values (as definitions) and malformed event bodies are placed next to two healthy executions and explored with deviation bound 2",
+                       "{task succeeds, task fails} (no 'Illegal State Machine', must end unless a machine has a cycle); every refused mutant is run too (must not raise, must go quiet, must end at most once, "
+                       "must end if it was announced RUNNING); mutants, JSON values (as definitions) and malformed event bodies are placed next to two healthy executions and explored with deviation bound 2",
     }
     cr.assumptions = list(common.ASSUME_SIM)
     return cr
@@ -283,8 +376,7 @@ def replay(rp):
             if desc == rp["mutation"]:
                 v = validate(m)
                 print("validate ->", v)
-                if v == ("problems", 0):
-                    print(run_machine(m, INPUTS, OUTCOMES))
+                print(run_machine(m, INPUTS, OUTCOMES))
                 return 1
     if rp["kind"] == "value":
         print(validate(rp["value"]))
